@@ -42,7 +42,7 @@ static void domain_case(uint32_t S, uint32_t L, int mode, int announce, const in
          * download that fits and is not a partial write must never be refused */
         if (L == S && !(mode == 1 && S > 4)) mc_fail("c02-refused", "conforming download of %u bytes to a %u-byte domain refused with %08X (mode %d, announce %d)", L, S, cl_abort, mode, announce);
     }
-    if (OBS.fatal) mc_fail("fatal-error callback invoked", "S=%u L=%u", S, L);
+    if (OBS.fatal) mc_fail("safety:fatal-error callback invoked", "S=%u L=%u", S, L);
     snprintf(smp, sizeof smp, "domain S=%u L=%u mode=%s announce=%d losses=%d -> %s", S, L, mode == 0 ? "exp(s=1)" : mode == 1 ? "exp(s=0)" : mode == 2 ? "seg" : "blk", announce, nlose, r == CL_OK ? "confirmed" : "aborted");
     mc_case_end(outcome_hash(r), 1, smp);
 }
@@ -101,7 +101,7 @@ static void basic_case(int b, uint32_t L, int mode, int announce)
         if (L != S && !(OBJ[o].kind == K_DOMAIN && L < S)) mc_fail("c02-wrong-length-confirmed", "download of %u byte(s) to the %u-byte object %04X confirmed (mode %d)", L, S, BASIC[b].idx, mode);
         else if (memcmp(v, PAY, L < S ? L : S)) mc_fail("c02-wrong-bytes", "confirmed download to %04X (mode %d announce %d): object holds %02X%02X%02X%02X, sent %02X%02X%02X%02X", BASIC[b].idx, mode, announce, v[0], v[1], v[2], v[3], PAY[0], PAY[1], PAY[2], PAY[3]);
     } else if (L == S) mc_fail("c02-refused", "conforming download of %u byte(s) to %04X refused with %08X (mode %d announce %d)", L, BASIC[b].idx, cl_abort, mode, announce);
-    if (OBS.fatal) mc_fail("fatal-error callback invoked", "basic");
+    if (OBS.fatal) mc_fail("safety:fatal-error callback invoked", "basic");
     snprintf(smp, sizeof smp, "object %04X:%02X L=%u mode=%d announce=%d -> %s", BASIC[b].idx, BASIC[b].sub, L, mode, announce, r == CL_OK ? "confirmed" : "aborted");
     mc_case_end(outcome_hash(r), 1, smp);
 }
